@@ -252,6 +252,19 @@ def main():
     facts.append("def setSitesSorted : Bool := %s" % ("true" if ok else "false"))
     facts.append("def setSiteCount : Nat := %d" % nsites)
     facts.append("")
+    for ident, sub in (("umlTemplatesCPP", "CPP"), ("umlTemplatesCS", "C#")):
+        d = os.path.join(KOJEN, "classdiagram_templates", sub)
+        fs = sorted(f for _, _, files in os.walk(d) for f in files)
+        facts.append("/-- file names of kojen/classdiagram_templates/%s (sorted) -/" % sub)
+        facts.append("def %s : List Str := [%s]" % (ident, ", ".join(lean_str(f) for f in fs)))
+    facts.append("/-- the file-name replacements of umlgen.loadtemplates_firstfiltering, per kind: (filter, key) and the common tail -/")
+    ug = open(os.path.join(KOJEN, "umlgen.py")).read()
+    keys = re.findall(r'dict_to_replace_filenames\["(\w+Template)"\] = classobj\.NAME', ug)
+    filters = re.findall(r'CGenerator\.loadtemplates_firstfiltering\(self,\s*dict_to_replace_lines,\s*dict_to_replace_filenames,\s*"(\w+)"\)', ug)
+    tail = re.findall(r"dict_to_replace_filenames\['(\.\w+)'\] = '(\.\w+)'", ug)
+    facts.append("def umlKindKeys : List (Str × Str) := [%s]" % ", ".join("(%s, %s)" % (lean_str(f), lean_str(k)) for f, k in zip(filters, keys)))
+    facts.append("def umlNameTail : List (Str × Str) := [%s]" % ", ".join("(%s, %s)" % (lean_str(a), lean_str(b)) for a, b in tail[:3]))
+    facts.append("")
     facts.append("end KojenVerif.Generated")
     changed = write_if_changed(os.path.join(GEN, "Facts.lean"), "\n".join(facts) + "\n")
 
